@@ -42,6 +42,10 @@ checks = {
  "C19": dict(engine="hdrmc", cat="model_checking", ref="DESIGN.md 3, 7 C19",
    text="in every state: locator for max 1,2,3,10,50 and the verify-only locator are checked for membership, order, start at tip-1, length, duplicates; protocol-conformant peers on every accepted tip (and 1-2 headers ahead) are simulated and their first reply header is submitted to the real repository",
    note=A_NOTE + "; synthetic split table at heights 2/3 and the real mainnet table on base chains", tech=A_TECH),
+ "C04": dict(engine="blkenum", cat="fault_enumeration", ref="DESIGN.md 6, 7 C04",
+   text="complete Cartesian enumeration of block size (1-8/9) x relevant subset x corruption/fault kind x position through the real BlockDownloader.HandleBlock with a recording processor/store: confirmation-stage calls occur only for the requested header with full count and matching merkle root and no earlier fault; then exactly coinbase, the relevant occurrences in block order with proofs that verify (also recomputed by an independent merkle implementation), the txid record last; Complete is nil iff all of it happened",
+   note="HandleBlock driven directly with a pre-filled closed channel (sequential); interleavings are C16; the node-side framing leg is covered by the C14/C15 checks",
+   tech="bounded-exhaustive input and fault-position enumeration on the implementation against a reference"),
  "C20": dict(engine="peermc", cat="model_checking", ref="DESIGN.md 6, 7 C20",
    text="BFS over all histories of Add/UpdateScore/UpdateTime/Save/Load/Clear (2-5 addresses incl. empty, 300-byte, non-ASCII, IPv6; deltas +-1,+-5) on the real StoragePeerRepository against a map model, all 36 Get(min,max) ranges and Count compared in every state; every prefix of every saved file reached is loaded; 17 structured arbitrary file contents (bad version, negative / huge counts and lengths, duplicates, garbage) are loaded in worker subprocesses under an address-space limit",
    note="sequential callers in this check (the concurrent part is explored separately); last-seen times are wall-clock and only checked to lie inside the call window; atomic single-key storage",
@@ -67,6 +71,7 @@ for pid, c in checks.items():
     })
 
 kinds = {
+ "blkenum": "complete enumeration of block contents x corruptions x fault positions through the real BlockDownloader.HandleBlock",
  "peermc": "explicit-state BFS over operation histories on the real StoragePeerRepository against a map model; file-prefix enumeration; arbitrary-content loads in limited worker subprocesses",
  "hdrmc": "explicit-state BFS over operation histories on the real headers.Repository; exact state de-duplication; reference block-tree model; crash-point enumeration",
 }
